@@ -90,6 +90,9 @@ func valueOf(v string, f uint64, rem uint64) uint64 {
 
 var c19Names = []string{"a.bin", "b.bin", "c.bin"}
 
+// content of the file listed in the non-recovery set by the nonrecv.* mutations (it is present on disk)
+var c19NRData = []byte("this file is only described, not protected: 70 bytes of text........")
+
 func c19Data() map[string][]byte {
 	rng := rand.New(rand.NewSource(1919))
 	out := map[string][]byte{}
@@ -137,6 +140,7 @@ type p2variant struct {
 	recvExp   map[int]uint32 // original exponent -> written exponent
 	recvLen   int            // -1 = unchanged
 	recvWrong bool
+	nonrecv   string // "" = none; "ok" = one consistent file in the non-recovery set; "short_ifsc" / "long_ifsc" = its checksum count disagrees with its length; "no_packets" = listed but not described
 	optional  int    // > 0: an optional packet of that shape (optionalPacket) follows the creator packet in every file
 	creator   string // "" = normal client id, "empty" = empty body, "padding" = NUL bytes only, "blank" = blanks and NULs
 }
@@ -154,6 +158,10 @@ func baseVariant(prot map[string][]byte) *p2variant {
 }
 
 func (v *p2variant) apply(m c19Mut) {
+	if strings.HasPrefix(m.Field, "nonrecv.") {
+		v.nonrecv = strings.TrimPrefix(m.Field, "nonrecv.")
+		return
+	}
 	if strings.HasPrefix(m.Field, "opt.") {
 		v.optional, _ = strconv.Atoi(strings.TrimPrefix(m.Field, "opt."))
 		return
@@ -267,6 +275,21 @@ func (v *p2variant) build(prot map[string][]byte) (map[string][]byte, [16]byte, 
 	for _, id := range ids {
 		main = append(main, id[:]...)
 	}
+	// a file in the NON-recovery set (ids after the recovery set's): described, not protected, present on disk
+	var nrFile *p2file
+	if v.nonrecv != "" {
+		d := c19NRData
+		nrFile = &p2file{name: "nonrecovery.bin", data: d, hash: md5.Sum(d), hash16k: refpar2.Hash16k(d), length: uint64(len(d)), fdName: "nonrecovery.bin",
+			pairs: refpar2.SlicePairs(d, c19S)}
+		switch v.nonrecv {
+		case "short_ifsc":
+			nrFile.pairs = nrFile.pairs[:2]
+		case "long_ifsc":
+			nrFile.pairs = append(nrFile.pairs, nrFile.pairs[0], nrFile.pairs[1])
+		}
+		id := nrFile.id()
+		main = append(main, id[:]...)
+	}
 	setID := md5.Sum(main)
 	pad4 := func(b []byte) []byte {
 		for len(b)%4 != 0 {
@@ -286,7 +309,11 @@ func (v *p2variant) build(prot map[string][]byte) (map[string][]byte, [16]byte, 
 	creator := refpar2.Frame(setID, refpar2.TypeCreator, creatorBody)
 	mainP := refpar2.Frame(setID, refpar2.TypeMain, main)
 	var fds, ifscs [][]byte
-	for _, f := range files {
+	descr := files
+	if nrFile != nil && v.nonrecv != "no_packets" {
+		descr = append(append([]*p2file{}, files...), nrFile)
+	}
+	for _, f := range descr {
 		id := f.id()
 		body := append([]byte{}, id[:]...)
 		body = append(body, f.hash[:]...)
@@ -554,6 +581,11 @@ func runC19Case(dir string, cs c19Case, prot map[string][]byte, a1 *arch1) (trac
 				}
 				g++
 			}
+		}
+	}
+	for _, m := range cs.Muts {
+		if strings.HasPrefix(m.Field, "nonrecv.") {
+			ioutil.WriteFile(filepath.Join(dir, "nonrecovery.bin"), c19NRData, 0644)
 		}
 	}
 	for _, n := range c19Names {
